@@ -6,6 +6,7 @@ import (
 
 	"github.com/antchfx/xpath"
 
+	"verif/internal/xdoc"
 	"verif/internal/xgen"
 	"verif/internal/xref"
 )
@@ -152,6 +153,8 @@ func (s c06Spec) longText() string {
 }
 
 // shapeCheck calls the three entry points on src and asserts the result shapes.
+var usableDoc = xdoc.MustParseXML(`<r><a x="1">t<b/><!--c--></a><a/></r>`, false)
+
 func (c *Case) c06Check(src string, label string) {
 	c.Rep.Counters["c06_calls"]++
 	if c.Rep.Counters["c06_calls"]%500 == 1 && !c.Canary(1) {
@@ -163,6 +166,25 @@ func (c *Case) c06Check(src string, label string) {
 			show = show[:100] + fmt.Sprintf("...(%d bytes)...", len(src)) + show[len(show)-60:]
 		}
 		c.Violation(kind, map[string]interface{}{"input": show, "input_len": len(src), "construct": label, "observed": what})
+	}
+	// "usable": what Compile hands back with a nil error, and what MustCompile hands back always, can be
+	// evaluated - a deliberate complaint about argument types is a use, a nil dereference inside the
+	// returned value is not. Probed on a seven-node document for inputs of moderate size and cost.
+	usable := func(name string, e *xpath.Expr) {
+		if len(src) > 2048 || xgen.CostEstimateText(src, len(usableDoc.Nodes)) > xgen.MaxCost {
+			return
+		}
+		c.Count("usability_probe")
+		sel := c.RunSelect(e, usableDoc.Root.Children[0])
+		ev := c.RunEvaluate(e, usableDoc.Root.Children[0])
+		switch {
+		case sel.Budget || ev.Budget:
+			viol("RETURNED-EXPRESSION-UNUSABLE", name+": evaluation on a seven-node document exhausts the navigator-op budget")
+		case sel.Panic != nil && sel.Panic.Runtime:
+			viol("RETURNED-EXPRESSION-UNUSABLE", name+": Select: "+sel.Panic.String())
+		case ev.Panic != nil && ev.Panic.Runtime:
+			viol("RETURNED-EXPRESSION-UNUSABLE", name+": Evaluate: "+ev.Panic.String())
+		}
 	}
 	try := func(name string, f func() (*xpath.Expr, error)) (accepted bool) {
 		defer func() {
@@ -178,6 +200,8 @@ func (c *Case) c06Check(src string, label string) {
 			viol("NEITHER-EXPR-NOR-ERROR", name)
 		case e != nil && err != nil:
 			viol("BOTH-EXPR-AND-ERROR", name+": "+err.Error())
+		case e != nil && name == "Compile":
+			usable(name, e)
 		}
 		return e != nil && err == nil
 	}
@@ -198,6 +222,8 @@ func (c *Case) c06Check(src string, label string) {
 		c.Count("mustcompile")
 		if e == nil {
 			viol("MUSTCOMPILE-RETURNED-NIL", "")
+		} else if !acc {
+			usable("MustCompile of a rejected input", e)
 		}
 	}()
 	if acc {
@@ -315,6 +341,18 @@ func c06FnArgs(c *Case) {
 // c06UTF8Edge: long (60..220 byte) valid and malformed inputs whose last, multi-byte or invalid
 // characters straddle every byte offset - error paths that slice or truncate the input text.
 func c06UTF8Edge(c *Case) {
+	if c.Index == 0 {
+		// the smallest inputs: nothing at all, only white space, single bytes
+		for _, in := range []string{"", " ", "\t", "\n", "\r\n", "  \t ", "\x00", "\xff", "\xc3", "\u00a0", "\u2028", "\ufeff", "\ufeffa"} {
+			c.Count("smallest_inputs")
+			c.c06Check(in, "utf8edge")
+		}
+		for b := 0; b < 256; b++ {
+			c.c06Check(string([]byte{byte(b)}), "utf8edge")
+			c.c06Check("a"+string([]byte{byte(b)}), "utf8edge")
+			c.c06Check(string([]byte{byte(b)})+"a", "utf8edge")
+		}
+	}
 	n := 40 + c.Index
 	for _, body := range []string{"a", "a/", "ab|", "1+", "x[", "f(", "'s", " "} {
 		pre := strings.Repeat(body, n/len(body)+1)[:n]
